@@ -3,7 +3,7 @@
 //! only on its own text and the kinds of what it imports).
 
 use crate::canon::{self, FileResult, Outcome};
-use crate::exec::{self, Callers, ErrK, Policy, ReadLog, P};
+use crate::exec::{self, Callers, ErrK, Policy, ReadEv, ReadLog, P};
 use crate::hist::{ArgKind, HistScenario, Op};
 use crate::rng::{digest_str, Digest};
 use crate::scenario::{disk_slot, Content, Violation};
@@ -34,6 +34,8 @@ struct Iso {
     key: String,
     kind: String,
     imports: Vec<String>,
+    /// does the isolated tree carry this SERIAL value (junk members may cost a document its tree)
+    serials: Vec<u64>,
 }
 
 fn kind_str(k: &ast::ResolvedItemKind) -> &'static str {
@@ -104,6 +106,7 @@ impl<'a> World<'a> {
                 key: String::new(),
                 kind: String::new(),
                 imports: Vec::new(),
+                serials: Vec::new(),
             },
             Outcome::Ok(m) => match m.values().next().and_then(|r| r.ast.as_ref()) {
                 Some(t) => Iso {
@@ -112,6 +115,7 @@ impl<'a> World<'a> {
                     key: t.get_key(),
                     kind: kind_str(&t.item.get_kind()).to_owned(),
                     imports: t.imports.iter().map(|i| i.get_qualified_name()).collect(),
+                    serials: serials_of(t),
                 },
                 None => Iso {
                     panic: None,
@@ -119,6 +123,7 @@ impl<'a> World<'a> {
                     key: String::new(),
                     kind: String::new(),
                     imports: Vec::new(),
+                    serials: Vec::new(),
                 },
             },
         };
@@ -145,6 +150,38 @@ fn alt_policy(p: Policy, n: u64) -> Policy {
         Policy::Stream(k) => Policy::Stream(k ^ (n.wrapping_mul(0x9e37_79b9))),
         Policy::PerCaller(k) => Policy::Stream(k.wrapping_add(n)),
     }
+}
+
+fn serials_of(t: &ast::Aidl) -> Vec<u64> {
+    let mut v: Vec<u64> = Vec::new();
+    match &t.item {
+        ast::Item::Interface(i) => {
+            for e in &i.elements {
+                if let ast::InterfaceElement::Const(c) = e {
+                    if c.name == "SERIAL" {
+                        v.extend(c.value.parse::<u64>().ok());
+                    }
+                }
+            }
+        }
+        ast::Item::Parcelable(p) => {
+            for e in &p.elements {
+                if let ast::ParcelableElement::Const(c) = e {
+                    if c.name == "SERIAL" {
+                        v.extend(c.value.parse::<u64>().ok());
+                    }
+                }
+            }
+        }
+        ast::Item::Enum(e) => {
+            for el in &e.elements {
+                if el.name == "SERIAL" {
+                    v.extend(el.value.as_deref().and_then(|x| x.parse::<u64>().ok()));
+                }
+            }
+        }
+    }
+    v
 }
 
 fn has_serial(t: &ast::Aidl, serial: u64) -> bool {
@@ -392,6 +429,21 @@ fn run_inner(w: &mut World, s: &HistScenario) -> RunOut {
             Op::Validate { times } => {
                 observe_times = (*times).max(1);
             }
+            Op::Warmup { n } => {
+                let n = *n;
+                callers.exec(st.caller, move || {
+                    policy.install(step_no);
+                    let mut p = P::new();
+                    for i in 0..n {
+                        let text = format!("package warm; parcelable W{step_no}x{i} {{ int f; }}");
+                        let _ = exec::add_content(&mut p, PathBuf::from(format!("warm/{i}.aidl")), &text);
+                    }
+                    let _ = exec::observe(&p);
+                });
+                if n >= 64 {
+                    w.count("probe_caller_warmup_64_contents");
+                }
+            }
             Op::DiskWrite { path, content, tail } => {
                 let mut bytes = content.text().into_bytes();
                 // a tail that is a well-formed comment leaves the document what it was
@@ -455,7 +507,7 @@ fn run_inner(w: &mut World, s: &HistScenario) -> RunOut {
                 parser = p;
                 mutations_since_obs += 1;
                 // What the model expects, from what the disk actually did
-                let (expect_ok, delivered): (bool, Vec<u8>) = match &log {
+                let (verdict, delivered): (Option<bool>, Vec<u8>) = match &log {
                     Some(l) => {
                         if !l.opened {
                             w.count("harness_disk_not_consulted");
@@ -495,15 +547,45 @@ fn run_inner(w: &mut World, s: &HistScenario) -> RunOut {
                         if l.reads_after_error > 0 {
                             w.count("reads_after_error");
                         }
-                        let utf8 = std::str::from_utf8(&l.delivered).is_ok();
-                        if l.open_error.is_none() && l.read_error.is_none() && !utf8 {
+                        // What a correct reader (one that reads to the end) must see
+                        let eff: Vec<u8> = l.effective.clone().unwrap_or_default();
+                        let utf8 = std::str::from_utf8(&eff).is_ok();
+                        if l.open_error.is_none() && !utf8 {
                             w.count("fault_invalid_utf8_fired");
                             fault_name = "invalid_utf8".to_owned();
                         }
-                        (
-                            l.open_error.is_none() && l.read_error.is_none() && l.eof_seen && utf8,
-                            l.delivered.clone(),
-                        )
+                        // is a scripted read error certainly reached before the data runs out?
+                        let mut reach = 0usize;
+                        let mut certain_error = false;
+                        let mut possible_error = false;
+                        for ev in &plan.script {
+                            match ev {
+                                ReadEv::Chunk(n) => reach = reach.saturating_add((*n).max(1)),
+                                ReadEv::Until(abs) => reach = reach.max(*abs),
+                                ReadEv::Interrupted => {}
+                                ReadEv::Err(_) => {
+                                    possible_error = true;
+                                    if reach < eff.len() {
+                                        certain_error = true;
+                                    }
+                                }
+                            }
+                        }
+                        let verdict: Option<bool> = if l.open_error.is_some() || !utf8 || certain_error {
+                            Some(false)
+                        } else if !possible_error {
+                            Some(true)
+                        } else if l.read_error.is_some() {
+                            Some(false)
+                        } else if l.eof_seen {
+                            Some(true)
+                        } else {
+                            None // the library stopped early and the error sat at the very end: either answer is defensible
+                        };
+                        if verdict == Some(true) && !l.eof_seen {
+                            w.count("load_stopped_before_eof");
+                        }
+                        (verdict, eff)
                     }
                     None => {
                         // pass-through: the real file system decides; the harness wrote the bytes
@@ -515,22 +597,16 @@ fn run_inner(w: &mut World, s: &HistScenario) -> RunOut {
                                     w.count("fault_invalid_utf8_fired");
                                     fault_name = "invalid_utf8".to_owned();
                                 }
-                                (utf8, b.clone())
+                                (Some(utf8), b.clone())
                             }
                             None => {
                                 w.count("fault_missing_file_fired");
                                 fault_name = "missing_file".to_owned();
-                                (false, Vec::new())
+                                (Some(false), Vec::new())
                             }
                         }
                     }
                 };
-                if let Some(l) = &log {
-                    if l.open_error.is_none() && l.read_error.is_none() && !l.eof_seen {
-                        // the library stopped reading before EOF: whatever it did, it did not read the file
-                        w.count("load_stopped_before_eof");
-                    }
-                }
                 match res {
                     Err(m) => {
                         // panic inside add_file: pathological content or a defect
@@ -551,6 +627,10 @@ fn run_inner(w: &mut World, s: &HistScenario) -> RunOut {
                         }
                     }
                     Ok(r) => {
+                        let expect_ok = verdict.unwrap_or(r.is_ok());
+                        if verdict.is_none() {
+                            w.count("add_file_result_ambiguous_accepted");
+                        }
                         if prop == Prop::C12 && r.is_ok() != expect_ok {
                             violation = Some(Violation {
                                 property: "C12",
@@ -772,6 +852,12 @@ fn check_c12(
         // clause 4: attribution of every well-formed generated document to its latest version
         for (k, e) in model {
             if let Some(meta) = &e.meta {
+                let iso = w.iso(&e.text);
+                if !iso.has_tree || !iso.serials.contains(&meta.serial) {
+                    // recovered syntax errors cost this document its tree or its serial
+                    w.count("attribution_skipped_no_isolated_tree");
+                    continue;
+                }
                 let r = &m[k];
                 let ok = match &r.ast {
                     Some(t) => {
